@@ -24,7 +24,11 @@ func c11Program() (doc string, ghosts int) {
 	// (Doc[] and (User | Doc)[]: a relation typed with its own namespace)
 	parents := pickS("Group[]", "SubjectSet<Group, \"members\">[]", "(User | Group)[]", "SubjectSet<Group, \"ghost\">[]", "Ghost[]", "Doc[]", "(User | Doc)[]",
 		// undeclared names inside unions and the generic array spelling
-		"(User | SubjectSet<Group, \"ghost\">)[]", "Array<SubjectSet<Group, \"ghost\">>", "Array<User | Ghost>")
+		"(User | SubjectSet<Group, \"ghost\">)[]", "Array<SubjectSet<Group, \"ghost\">>", "Array<User | Ghost>",
+		// quoted names with dots: (Group, "mem.ghost") is declared, ("Group.mem", "ghost") is not,
+		// and the two pairs read the same when joined with a dot
+		"(SubjectSet<Group, \"mem.ghost\"> | SubjectSet<\"Group.mem\", \"ghost\">)[]")
+	dotted := strings.Contains(parents, "Group.mem")
 	if strings.Contains(parents, "ghost") || strings.Contains(parents, "Ghost") {
 		ghosts++
 	}
@@ -60,7 +64,14 @@ func c11Program() (doc string, ghosts int) {
 	if groupX {
 		doc += "    x: User[]\n"
 	}
-	doc += "  }\n}\nclass Doc implements Namespace {\n  related: {\n    parents: " + parents + "\n    viewers: User[]\n" + map[bool]string{true: "    x: User[]\n", false: ""}[docX] + "  }\n" +
+	if dotted {
+		doc += "    \"mem.ghost\": User[]\n"
+	}
+	doc += "  }\n}\n"
+	if dotted {
+		doc += "class \"Group.mem\" implements Namespace {\n  related: { y: User[] }\n}\n"
+	}
+	doc += "class Doc implements Namespace {\n  related: {\n    parents: " + parents + "\n    viewers: User[]\n" + map[bool]string{true: "    x: User[]\n", false: ""}[docX] + "  }\n" +
 		"  permits = {\n    edit: (ctx) => this.related.viewers.includes(ctx.subject),\n    view: (ctx) => " + body + ",\n  }\n}\n"
 	return doc, ghosts
 }
